@@ -401,6 +401,9 @@ class Nodes:
         # Clone str values lest the new node change whenever the original node
         # changes, which defeates the intention of preserving the present,
         # pre-change value to an entirely new node.
+        if node is None:
+            return None
+
         clone_value = node
         if isinstance(clone_value, str):
             clone_value = ''.join(node)
